@@ -2,7 +2,7 @@
 
 S2C replays compare the encoded outcome with == against what TLC printed; what is not == is handed to the trace
 specification, which names the clause (and must reject it - S2C and C2S disagreeing is a machinery failure);
-a tenth of the S2C matches is handed over too (and must be accepted).  C2S observations are all handed over.
+one in 16 of the S2C matches is handed over too (and must be accepted).  C2S observations are all handed over.
 The `kind` of a mismatch = (op, form, names of the fields that were not ==) only bounds the log: at most `cap`
 observations of one kind are judged, the rest is counted."""
 import json
@@ -31,7 +31,7 @@ class Log(object):
             self.kinds[kind] = self.kinds.get(kind, 0) + 1
             if self.kinds[kind] <= self.cap:
                 self.kind_of[len(self.obs)] = kind; self.obs.append(o)
-        elif self.n % 10 == 0:
+        elif self.n % 16 == 0:
             self.expect_ok.add(len(self.obs)); self.obs.append(o)
 
     def c2s(self, o):
@@ -39,7 +39,7 @@ class Log(object):
         self.obs.append(o)
 
 
-CHUNK = 30000      # observations per TLC start (the whole log is read into memory by ndJsonDeserialize)
+CHUNK = 40000      # observations per TLC start (the whole log is read into memory by ndJsonDeserialize)
 
 
 def judge(ctx, log, module, case_keys, group_keys=('op', 'form')):
